@@ -429,4 +429,11 @@ def _check_event_maps(repo: Repo, rep: Report):
         rep.fail("event-map", "dul.DULServiceProvider._process_recv_primitive", f"{' and '.join(g[0])} -> {g[1]}", "primitive-to-event mapping not in PS3.8's event list", mod=dul, node=fn)
     # T_CONNECT.result is restricted to Evt2 / Evt17 by its setter
     st = repo.func("transport", "T_CONNECT.result:setter")
-    rep.check('("Evt2", "Evt17")' in repo.mod("transport").seg(st) or "('Evt2', 'Evt17')" in norm(st), "event-map", "transport.T_CONNECT.result", "value not in ('Evt2', 'Evt17')", "transport connect result must be Evt2 or Evt17", mod=repo.mod("transport"), node=st)
+    okt = False
+    for i in [i for i in walk_no_nested(st) if isinstance(i, ast.If) and isinstance(i.test, ast.Compare) and len(i.test.ops) == 1 and isinstance(i.test.ops[0], (ast.NotIn, ast.In))]:
+        c = i.test.comparators[0]
+        vals = sorted(e.value for e in c.elts if isinstance(e, ast.Constant)) if isinstance(c, (ast.List, ast.Tuple, ast.Set)) else []
+        raising = i.body if isinstance(i.test.ops[0], ast.NotIn) else i.orelse
+        if vals == ["Evt17", "Evt2"] and any(isinstance(x, ast.Raise) for x in raising):
+            okt = True
+    rep.check(okt, "event-map", "transport.T_CONNECT.result", "value not in ('Evt2', 'Evt17') -> raise", "transport connect result must be Evt2 or Evt17", mod=repo.mod("transport"), node=st)
